@@ -124,6 +124,8 @@ func RunAction(kind string, r interface{}, act string) {
 		panic(e)
 	case "setmeta":
 		r.(interface{ SetResponseStatus(int) }).SetResponseStatus(303)
+	case "setmeta201":
+		r.(interface{ SetResponseStatus(int) }).SetResponseStatus(201)
 	case "resource":
 		r.(interface{ Resource(string) }).Resource("t.created")
 	default:
